@@ -195,7 +195,7 @@ def set_at(v, path, new):
 
 
 EDIT_KINDS = ["replace_atom", "replace_sub", "list_insert", "list_delete", "list_move", "list_dup",
-              "dict_add", "dict_del", "dict_rekey", "set_add", "set_del", "type_change", "tuple_item"]
+              "dict_add", "dict_del", "dict_rekey", "set_add", "set_del", "type_change", "tuple_item", "retype_equal"]
 
 
 def edit(rng, v, alias=False, strings=None, tuples_inplace=True, kinds=None):
@@ -212,6 +212,18 @@ def edit(rng, v, alias=False, strings=None, tuples_inplace=True, kinds=None):
         new = gen_atom(rng, alias, strings)
     elif kind == "replace_sub":
         new = gen_value(rng, 2, 3, alias, strings)
+    elif kind == "retype_equal":
+        # same items, another container type that Python's == may not tell apart (set/frozenset) or may (list/tuple)
+        if isinstance(sub, frozenset):
+            new = set(sub)
+        elif isinstance(sub, set):
+            new = frozenset(sub)
+        elif isinstance(sub, list):
+            new = tuple(sub)
+        elif isinstance(sub, tuple):
+            new = list(sub)
+        else:
+            return v, None
     elif kind == "type_change":
         if isinstance(sub, list):
             new = {"k%d" % i: x for i, x in enumerate(sub)} if rng.random() < 0.5 else "s"
@@ -391,4 +403,49 @@ def plant(rng, outer_depth, leaf_pair):
         else:
             key = rng.choice(["k", "k2", 1, 2.5, None, True])
             a, b = {key: a, "z": 0}, {key: b, "z": 0}
+    return a, b
+
+
+def share(rng, v):
+    """Return a copy of v in which one container occurs (as the SAME object) at a
+    second position, replacing a container of the same type there; (v, False) if
+    impossible.  For properties whose quantifier allows shared sub-objects."""
+    v = copy.deepcopy(v)
+    pos = [p for p in positions(v) if p and isinstance(get_at(v, p), (list, dict))]
+    rng.shuffle(pos)
+    for i, p in enumerate(pos):
+        for q in pos[i + 1:]:
+            if p == q[:len(p)] or q == p[:len(q)]:
+                continue
+            a = get_at(v, p)
+            parent = get_at(v, q[:-1])
+            if isinstance(parent, (list, dict)) and type(get_at(v, q)) is type(a):
+                parent[q[-1]] = a
+                return v, True
+    return v, False
+
+
+def gen_row_list_pair(rng, maxrows=7):
+    """Two lists of tuple rows (scalars) related by a row insertion/deletion in
+    front and a later row that gains / loses / changes an element."""
+    n = rng.randint(3, maxrows)
+    rows = [tuple(rng.randint(0, 9) for _ in range(rng.randint(1, 3))) for _ in range(n)]
+    a = list(rows)
+    b = list(rows)
+    k = rng.randrange(len(b))
+    if rng.random() < 0.5:
+        b.insert(rng.randint(0, k), tuple(rng.randint(10, 19) for _ in range(2)))
+    else:
+        del b[rng.randint(0, max(0, k - 1))]
+    if b:
+        j = rng.randrange(len(b))
+        r = list(b[j])
+        c = rng.random()
+        if c < 0.4:
+            r.append(rng.randint(20, 29))
+        elif c < 0.7 and r:
+            r.pop()
+        elif r:
+            r[rng.randrange(len(r))] = rng.randint(30, 39)
+        b[j] = tuple(r)
     return a, b
